@@ -45,12 +45,37 @@ def gen_module(work, name, text):
     return p
 
 
-def classify_tv(res, summary, mons, kfset, scen_of, what):
+def _schedules(trace):
+    """(sc, run) -> exact schedule taken, from the `end` lines of a level recording"""
+    out, cur = {}, None
+    if not trace:
+        return out
+    for line in open(trace):
+        if line.startswith('{"k":"reset"') or '"k":"reset"' in line[:40]:
+            d = json.loads(line)
+            cur = (d.get("sc"), d.get("run"))
+        elif '"k":"end"' in line[:40] or line.startswith('{"k":"end"'):
+            d = json.loads(line)
+            if cur is not None and "sched" in d:
+                out[cur] = d["sched"]
+    return out
+
+
+def classify_tv(res, summary, mons, kfset, scen_of, what, trace=None, spec="level"):
     """turn a trace-validation summary into violations / known findings"""
+    scheds = None
     for f in summary["fails"]:
         if f["mon"] in mons:
+            sc = dict(scen_of(f["sc"]))
+            if trace and sc.get("log", "micro") == "micro" and "threads" in sc:
+                if scheds is None:
+                    scheds = _schedules(trace)
+                seq = scheds.get((f["sc"], f["run"]))
+                if seq is not None:
+                    sc["sched"] = {"mode": "fixed", "seq": seq, "skip_stats": False}
+                    sc["drain"] = False if len(seq) and max(seq) > len(sc["threads"]) and False else sc.get("drain", False)
             res.violation("%s: monitor %s failed at trace line %d (scenario %d, run %d)" % (what, f["mon"], f["line"], f["sc"], f["run"]),
-                          {"kind": what, "scenario": scen_of(f["sc"]), "line": f["line"], "run": f["run"], "monitor": f["mon"]})
+                          {"kind": what, "driver": "level", "spec": spec, "scenario": sc, "line": f["line"], "run": f["run"], "monitor": f["mon"]})
     for k in summary["kf"]:
         if k in kfset:
             res.kf_seen[k] = KF_WHAT.get(k, k)
@@ -119,7 +144,7 @@ def check_conc(prop, tier):
                     res.notes.append("replay final-state mismatch sc=%d sched=%s" % (rp["sc"], rp["sched"]))
         res.add(replayed_model_behaviours=len(replays), replay_final_mismatch=mism, replay_drifts=len(s["drifts"]),
                 traces_validated_against_impl=s["execs"], events_validated=s["lines"])
-        classify_tv(res, s, CONC_MON[prop], KF_OF.get(prop, set()), lambda i: hs[i], "replay of model behaviour")
+        classify_tv(res, s, CONC_MON[prop], KF_OF.get(prop, set()), lambda i: hs[i], "replay of model behaviour", trace=h["trace"])
         drift = len(s["drifts"]) + mism
         for rp in replays[:2]:
             res.sample({"scenario": scs[rp["sc"] - 1]["progs"], "schedule": rp["sched"], "model_final": rp["final"]})
@@ -134,7 +159,7 @@ def check_conc(prop, tier):
         s2 = tv(h2["trace"], "MCTraceLevel", "TraceLevel", work, timeout=3000)
         res.add(traces_validated_against_impl=s2["execs"], events_validated=s2["lines"], tv_drifts=len(s2["drifts"]),
                 quiescent_points_checked=s2["quiet"] + s["quiet"], returns_checked=s2["retchk"] + s["retchk"])
-        classify_tv(res, s2, CONC_MON[prop], KF_OF.get(prop, set()), lambda i: hs2[i], "recorded execution")
+        classify_tv(res, s2, CONC_MON[prop], KF_OF.get(prop, set()), lambda i: hs2[i], "recorded execution", trace=h2["trace"])
         drift += len(s2["drifts"])
         if prop == "C08":
             import queue_checks
@@ -256,7 +281,7 @@ def check_seq(prop, tier):
         res.add(replayed_model_behaviours=len(replays), replay_final_mismatch=mism, replay_drifts=len(s["drifts"]),
                 traces_validated_against_impl=s["execs"], calls_validated=s["calls"], calls_conforming=s["conform"],
                 matches=s["matches"], trades=s["trades"])
-        classify_tv(res, s, SEQ_MON[prop], KF_OF.get(prop, set()), lambda i: hs[i], "replay of model history")
+        classify_tv(res, s, SEQ_MON[prop], KF_OF.get(prop, set()), lambda i: hs[i], "replay of model history", spec="seq")
         for rp in replays[:2]:
             res.sample({"history": rp["calls"], "model_final": rp["final"]})
 
@@ -269,7 +294,7 @@ def check_seq(prop, tier):
         s2 = tv(h2["trace"], "MCTraceSeq", "TraceSeq", work, timeout=6000)
         res.add(traces_validated_against_impl=s2["execs"], calls_validated=s2["calls"], calls_conforming=s2["conform"],
                 tv_drifts=len(s2["drifts"]), matches=s2["matches"], trades=s2["trades"])
-        classify_tv(res, s2, SEQ_MON[prop], KF_OF.get(prop, set()), lambda i: hs2[i], "recorded history")
+        classify_tv(res, s2, SEQ_MON[prop], KF_OF.get(prop, set()), lambda i: hs2[i], "recorded history", spec="seq")
         res.sample({"random_history": hs2[0]["threads"][0][:12]})
         drift = len(s["drifts"]) + len(s2["drifts"]) + mism
         if drift and not res.violations:
